@@ -171,6 +171,18 @@ def check_loop(res: RuleResult, lang: str, file: str, fname: str, line: int, tes
     if c_val is None:
         res.unsure(f"D1: {lang}:{fname}: chunk size variable not found")
         return None
+    # every write into the stream inside the loop must be a masked OR (or go through the chunk functions)
+    for e in effects:
+        if e.kind == "store" and e.name == "s":
+            idx, val = e.args
+            parts = _and_parts(val)
+            masked = parts is not None and any(_strip_trunc_mask(p) in (SPEC["encode"]["mask"],) or _strip_trunc_mask(p) == spec_mask(mod8(i_)).subst("c", c_val) for p in parts)
+            if e.op != "|=" or not masked:
+                f = Finding("D1", file, getattr(e.node, "lineno", line), fname, repr(e), f"the chunk loop stores into the stream with `{e.op}` of a value that is not `(...) & mask` (guard: {e.guard or 'always'}): bits beyond the field's width (sign extension, out-of-range values) reach the neighbouring field or the padding", witness="int12 holding -1 at a byte-aligned position followed by another field", tag=f"{lang}:{fname}:unmasked-store")
+                f.part = part
+                res.bad(f)
+        elif e.kind in ("compound", "other"):
+            res.unsure(f"D1: {lang}:{fname}: statement `{e.name}` inside the chunk loop is outside the enumerated forms")
     adv = {e.name: e for e in effects if e.kind == "attr" and e.op == "+="}
     for cur in ("i", "j"):
         e = adv.get(cur)
